@@ -348,8 +348,12 @@ func (sp *Specs) LoadFile(path string, stripPrefix string) error {
 			if err != nil {
 				return fmt.Errorf("%s: loop ordinal: %v", src, err)
 			}
-			curLoop = &LoopSpec{Ord: n}
-			cur.Loops[n] = curLoop
+			if prev, ok := cur.Loops[n]; ok {
+				curLoop = prev // a second "loop n" block of the same function adds to the first
+			} else {
+				curLoop = &LoopSpec{Ord: n}
+				cur.Loops[n] = curLoop
+			}
 		case "invariant":
 			if curLoop == nil {
 				return fmt.Errorf("%s: invariant outside loop", src)
